@@ -27,7 +27,12 @@ sed -i "s#path = \"/repo/yrs\"#path = \"$S/repo/yrs\"#" $S/harness/Cargo.toml
 grep -rl '"/repo/' $S/harness/src 2>/dev/null | xargs -r sed -i "s#\"/repo/#\"$S/repo/#g"
 cp /repo/Cargo.lock $S/harness/Cargo.lock
 cd /verif
-VERIF_REPO=$S/repo VERIF_HARNESS=$S/harness VERIF_WORK=$S/work VERIF_EVID=$S/evidence ./check "$@"
+# MUTANT_CMD (development aid): run that command instead of ./check in the same environment
+if [ -n "${MUTANT_CMD:-}" ]; then
+  VERIF_REPO=$S/repo VERIF_HARNESS=$S/harness VERIF_WORK=$S/work VERIF_EVID=$S/evidence $MUTANT_CMD
+else
+  VERIF_REPO=$S/repo VERIF_HARNESS=$S/harness VERIF_WORK=$S/work VERIF_EVID=$S/evidence ./check "$@"
+fi
 rc=$?
 echo "MUTANT-RESULT rc=$rc"
 exit $rc
